@@ -1,3 +1,16 @@
 //! Safe-Rust verification hooks for this module (accessors/wrappers only; no logic).
 #![allow(missing_docs, unused_imports, dead_code)]
 use super::*;
+
+pub fn ts_from_raw<A>(v: u128) -> Timestamp<A> {
+    Timestamp(v, PhantomData)
+}
+pub fn ts_raw<A>(t: Timestamp<A>) -> u128 {
+    t.0
+}
+pub fn dur_from_raw(v: i128) -> Duration {
+    Duration(v)
+}
+pub fn dur_raw(d: Duration) -> i128 {
+    d.0
+}
